@@ -13,7 +13,9 @@ position plays for the evaluator:
 * `Role.node`     — the position of some node (every position has this role);
 * `Role.ident`    — the position of a variable reference `x`, or of the target of `(set! x …)`
                     (`Xform.toStatement` locates an assignment at its target identifier);
-* `Role.operator` — the position of the operator expression of a procedure call.
+* `Role.operator` — the position of the operator expression of a procedure call;
+* `Role.libname`  — the position of a library name in an import declaration;
+* `Role.export`   — the position of an export spec of a library definition.
 
 `locs` forgets the roles.
 -/
@@ -26,7 +28,7 @@ abbrev Pos := Nat × Nat
 
 /-- the role a position plays in a piece of code -/
 inductive Role where
-  | node | ident | operator
+  | node | ident | operator | libname | export
   deriving DecidableEq, Repr
 
 /-- a position with a role -/
@@ -91,6 +93,10 @@ def ImportSet.locs : ImportSet → List Pos
   | .prefix s _ => s.locs
   | .rename s _ => s.locs
 
+/-- the positions of the library names in the import sets of an import declaration -/
+def ImportSet.rlocsList (sets : List ImportSet) : List RPos :=
+  (sets.flatMap ImportSet.locs).map (fun p => (Role.libname, p))
+
 def ExportSpec.loc : ExportSpec → Loc
   | .direct _ l => l
   | .rename _ _ l => l
@@ -98,7 +104,7 @@ def ExportSpec.loc : ExportSpec → Loc
 mutual
 /-- all positions inside a statement, with their roles -/
 def Statement.rlocs : Statement → List RPos
-  | .importDecl sets l => l.as .node ++ (sets.flatMap ImportSet.locs).map (fun p => (Role.node, p))
+  | .importDecl sets l => l.as .node ++ ImportSet.rlocsList sets
   | .definition d => d.rlocs
   | .syntaxDef _ _ l => l.as .node
   | .expr e => e.rlocs
@@ -107,8 +113,8 @@ def Statement.rlocsList : List Statement → List RPos
   | [] => []
   | s :: ss => s.rlocs ++ Statement.rlocsList ss
 def LibDecl.rlocs : LibDecl → List RPos
-  | .importDecl sets => (sets.flatMap ImportSet.locs).map (fun p => (Role.node, p))
-  | .export specs => specs.flatMap (fun s => s.loc.as .node)
+  | .importDecl sets => ImportSet.rlocsList sets
+  | .export specs => specs.flatMap (fun s => s.loc.as .export)
   | .begin_ body => Statement.rlocsList body
 def LibDecl.rlocsList : List LibDecl → List RPos
   | [] => []
